@@ -9,11 +9,14 @@ Definition c256 (v : Z) : bvterm := BVal v 256.
 (* cond.ite(&BV::from_u64(1,256), &BV::from_u64(0,256)) *)
 Definition ite01 (c : bvform) : bvterm := BIte c (c256 1) (c256 0).
 
-(* Z3Visit::make_const: four big-endian u64 chunks, concatenated (the Rust then calls
-   .simplify(), which does not change the denotation) *)
+(* Z3Visit::make_const: four big-endian u64 chunks, bv0.concat(bv1).concat(bv2).concat(bv3),
+   then .simplify().  z3's simplifier evaluates a concat of numerals to the numeral, so what
+   Z3Visit::exit pushes is a LITERAL (BV::as_u64 sees a numeral; the hook prints `#x...`);
+   the model therefore builds that literal: the value of the concatenation of the chunks. *)
+Definition const_chunk (v i : Z) : Z := (v / 2 ^ (64 * i)) mod 2 ^ 64.
 Definition make_const (v : Z) : bvterm :=
-  let chunk (i : Z) := BVal ((v / 2 ^ (64 * i)) mod 2 ^ 64) 64 in
-  BConcat (BConcat (BConcat (chunk 3) (chunk 2)) (chunk 1)) (chunk 0).
+  BVal (((const_chunk v 3 * 2 ^ 64 + const_chunk v 2) * 2 ^ 64 + const_chunk v 1) * 2 ^ 64
+        + const_chunk v 0) 256.
 
 (* Z3Visit::make_var: format!("etk_{}", var) with Var's Display "var<n>" *)
 Definition var_name (n : Z) : string := "etk_var" +++ dec_of_Z n.
@@ -29,8 +32,29 @@ Definition t_div := guard0 Budiv.
 Definition t_sdiv := guard0 Bsdiv.
 Definition t_mod := guard0 Burem.
 Definition t_smod := guard0 Bsrem.
-(* lhs.to_int(false).power(&rhs.to_int(false)).to_ast(256) *)
-Definition t_exp (lhs rhs : bvterm) := BIntPow lhs rhs.
+(* BV::as_u64 (Z3_get_numeral_uint64): Some only for a numeral whose value fits 64 bits.
+   The numerals among the model's terms are exactly the BVal nodes: constants (see make_const),
+   BV::from_u64 (GetPc, and the `result = 1` that Exp returns for the literal exponent 0);
+   z3's term constructors do not simplify, so no compound term is a numeral. *)
+Definition as_u64 (t : bvterm) : option Z :=
+  match t with
+  | BVal v w => let x := v mod 2 ^ w in if x <? 2 ^ 64 then Some x else None
+  | _ => None
+  end.
+(* Exp with a literal exponent: square-and-multiply, `while exponent > 0 { if exponent & 1 == 1
+   { result = result * base.clone() } base = base.clone() * base; exponent >>= 1 }`.
+   A u64 is exhausted after 64 iterations (fuel).  The term is a tree here (z3 shares the
+   squares): its size is about 2 * exponent. *)
+Fixpoint exp_loop (fuel : nat) (exponent : Z) (result base : bvterm) : bvterm :=
+  match fuel with
+  | O => result
+  | S f =>
+      if 0 <? exponent then
+        let result' := if Z.odd exponent then BBin Bmul result base else result in
+        exp_loop f (exponent / 2) result' (BBin Bmul base base)
+      else result
+  end.
+Definition t_exp_lit (lhs : bvterm) (exponent : Z) : bvterm := exp_loop 64 exponent (c256 1) lhs.
 Definition t_lt (lhs rhs : bvterm) := ite01 (FCmp Cult lhs rhs).
 Definition t_gt (lhs rhs : bvterm) := ite01 (FCmp Cugt lhs rhs).
 Definition t_slt (lhs rhs : bvterm) := ite01 (FCmp Cslt lhs rhs).
@@ -133,7 +157,12 @@ Definition tr_exit (s : sym) (st : vstate) : res vstate :=
   | SSDiv => exit2 t_sdiv a n
   | SMod => exit2 t_mod a n
   | SSMod => exit2 t_smod a n
-  | SExp => exit2 t_exp a n
+  | SExp =>
+      do (rhs, a1) <- pop a; do (lhs, a2) <- pop a1;
+      match as_u64 rhs with
+      | Some exponent => push (t_exp_lit lhs exponent) a2 n
+      | None => push_fresh "exp" a2 n
+      end
   | SLt => exit2 t_lt a n
   | SGt => exit2 t_gt a n
   | SSLt => exit2 t_slt a n
@@ -245,7 +274,11 @@ Definition tr_node (s : sym) (args : list bvterm) (n : nat) : bvterm * nat :=
   | SSDiv => (t_sdiv x y, n)
   | SMod => (t_mod x y, n)
   | SSMod => (t_smod x y, n)
-  | SExp => (t_exp x y, n)
+  | SExp =>
+      match as_u64 y with
+      | Some exponent => (t_exp_lit x exponent, n)
+      | None => (BFresh "exp" n, S n)
+      end
   | SLt => (t_lt x y, n)
   | SGt => (t_gt x y, n)
   | SSLt => (t_slt x y, n)
@@ -352,8 +385,7 @@ Definition concrete_interp (E : senv) : interp :=
      i_fresh := se_read E;
      i_uf := fun f x =>
        if String.eqb f "calldataload" then se_calldataload E x
-       else if String.eqb f "blockhash" then se_blockhash E x else 0;
-     i_pow00 := 1 |}.
+       else if String.eqb f "blockhash" then se_blockhash E x else 0 |}.
 
 (* M gives the z3 symbols the values of the execution E (values are read modulo 2^256) *)
 Definition agrees (M : interp) (E : senv) : Prop :=
@@ -361,8 +393,7 @@ Definition agrees (M : interp) (E : senv) : Prop :=
   (forall s name, env_name s = Some name -> i_named M name mod 2 ^ 256 = wrap (se_env E s)) /\
   (forall k, i_fresh M k mod 2 ^ 256 = wrap (se_read E k)) /\
   (forall x, i_uf M "calldataload" x mod 2 ^ 256 = wrap (se_calldataload E x)) /\
-  (forall x, i_uf M "blockhash" x mod 2 ^ 256 = wrap (se_blockhash E x)) /\
-  i_pow00 M = 1.
+  (forall x, i_uf M "blockhash" x mod 2 ^ 256 = wrap (se_blockhash E x)).
 
 (* ---- rendering for the cross-check (checks/c05ops.py) ---- *)
 Definition run_z3term (e : sexpr) : string := show_res smt_of_term (tr_sexpr e).
